@@ -174,33 +174,45 @@ def obligations(c):
                     bad.append(S.And(new_tx, veq(m, key), occ, S.Or(earlier)))
             out.append({'name': '%s(%s): the first maker of the iteration is the earliest-arrived displaying order' % (op, where),
                         'kind': 'obligation', 'goal': S.And(guard, S.Or(bad))})
-        # (b) J re-established at the next loop head for the prescribed ranks
+        # (b) J re-established at the next loop head for the prescribed ranks.  Everything is read off the level states
+        #     before / after the iteration (not off local variables of match_order, whose names a refactoring may change)
         for j, cut in enumerate(rec.get('cuts') or []):
             parts = h.level_parts(cut['level'])
-            loc = cut['locals']
-            oa = loc.get('order_arc')
-            if oa is None:
-                continue
-            vid = OrderView(L, oa).id
-            hr = loc.get('hidden_reduced')
-            cons = loc.get('consumed')
-            replen = S.Not(S.Eq(hr, S.bv(0, 64)))
-            traded = S.Not(S.Eq(cons, S.bv(0, 64)))
+            q0 = p['q'] if op == 'M' else rec['start']['remaining']
+            traded = S.Ult(cut['remaining'], q0)
             newr = back_rank(c, 'rank_cut%d' % j)
-            free = c.inp.var('rank_free%d' % j, RW)
-            partial = S.And(traded, S.Not(replen))
-            # another available ticket of the visited id is still queued (left by an earlier amend / re-add)
-            dup = S.Or([S.And(pr, S.Not(pp), veq(idv, vid)) for _, pr, pp, idv in parts['tickets']][:-1]) \
-                if len(parts['tickets']) > 1 else S.FALSE
-            # exclude the ticket pushed by this iteration (the last entry) only if it names the visited id
             strict, tolerant = {}, {}
-            for kk, r in ranks.items():
-                mine = veq(vid, const_order_id(kk[2][0]))
+            dup = S.FALSE
+            replen = S.FALSE
+            for occ, key, o in pre_parts['resting']:
+                kk = _k(key)
+                # the maker this iteration visited: owner of the first available ticket whose id is resting
+                alts = []
+                none_live_before = S.TRUE
+                for _, pr, pp, idv in pre_parts['tickets']:
+                    avail = S.And(pr, S.Not(pp))
+                    is_live = S.Or([S.And(oc2, veq(idv, k2)) for oc2, k2, _ in pre_parts['resting']])
+                    alts.append(S.And(avail, veq(idv, key), occ, none_live_before))
+                    none_live_before = S.And(none_live_before, S.Not(S.And(avail, is_live)))
+                visited = S.Or(alts)
+                hpre = OrderView(L, o).hidden
+                hpost = hpre
+                for oc2, k2, o2 in parts['resting']:
+                    if _k(k2) == kk:
+                        hpost = S.Ite(oc2, OrderView(L, o2).hidden, hpost)
+                replen_k = S.And(visited, S.Ult(hpost, hpre))
+                replen = S.Or(replen, replen_k)
+                partial = S.And(visited, traded, S.Not(replen_k))
+                r = ranks[kk]
                 # statement: replenished -> back; partially filled -> keeps place; a maker that had nothing to
                 # trade (statement silent) -> back
-                strict[kk] = S.Ite(mine, S.Ite(partial, r, newr), r)
+                strict[kk] = S.Ite(visited, S.Ite(partial, r, newr), r)
                 # known deviation: a partially filled maker is re-queued at the back
-                tolerant[kk] = S.Ite(mine, newr, r)
+                tolerant[kk] = S.Ite(visited, newr, r)
+                # another available ticket of the visited id is still queued (left by an earlier amend / re-add)
+                ntick = [S.And(pr, S.Not(pp), veq(idv, key)) for _, pr, pp, idv in pre_parts['tickets']]
+                two = S.Or([S.And(ntick[a_], ntick[b_]) for a_ in range(len(ntick)) for b_ in range(a_)])
+                dup = S.Or(dup, S.And(visited, two))
             Js_o = link_invariant(h, parts, strict, True)
             Jt = link_invariant(h, parts, tolerant)
             def dr(rk, parts=parts, cut=cut):
